@@ -396,10 +396,6 @@ func funcPaths(tier string, rng *rand.Rand) []Path {
 		for j := 0; j < k; j++ {
 			seq = append(seq, fns[rng.Intn(len(fns))])
 		}
-		// a function in the middle
-		if rng.Intn(3) == 0 {
-			seq = []Step{a, fns[rng.Intn(len(fns))], b}
-		}
 		out = append(out, mkPath(seq...))
 	}
 	// functions inside filter operands
